@@ -33,8 +33,12 @@ chk("C11","simio","exploration",
 
 # ENGINES_FIRST
 engines=[
- {"name":"simio","path":"sim/simio, sim/props/c11.go","serves_properties":["C11"],"kind_free_text":"simulated io.Reader (scripted chunking, zero reads, data+err, terminal errors) driving the real Decoder; reference model encoding/json"},
- {"name":"sched","path":"shim/{sync,atomic,simhook}, tools/instrument, sim/props/c09.go","serves_properties":["C09"],"kind_free_text":"token-passing scheduler over real goroutines behind import-redirected sync and sync/atomic; simulated sync.Pool; race detector with scheduler hand-offs hidden"},
+ {"name":"simio","path":"sim/simio, sim/props/c11.go","serves_properties":["C11","C08","C10"],"kind_free_text":"simulated io.Reader (scripted chunking, zero-length reads, data returned with an error, terminal EOF / ErrUnexpectedEOF / custom / wrapped errors at chosen offsets; with and without io.ByteReader) and guarded caller buffers (canaries + shadow copy); reference model encoding/json"},
+ {"name":"sched","path":"shim/{sync,atomic,simhook}, tools/instrument, sim/props/c09.go c10.go c17.go","serves_properties":["C09","C10","C17"],"kind_free_text":"seeded token-passing scheduler over real goroutines behind import-redirected sync and sync/atomic (random walk, PCT, load-biased strategies); simulated sync.Pool (LIFO/FIFO/random/never-reuse/drop, poison on put, double-put monitor); Go race detector with the scheduler's hand-offs hidden from it (C09)"},
+ {"name":"wirefault","path":"sim/ref, sim/props/c07.go c08.go","serves_properties":["C07","C08"],"kind_free_text":"storage/transport fault operators over encoded messages, driven by independent reference parsers/serialisers of the protobuf wire format and both thrift protocols: tear at every offset, byte rot, length/count inflation and negation, over-long and overflowing varints, wire-type changes, foreign fields at every boundary of every nesting level, removed required fields"},
+ {"name":"bufexhaust","path":"sim/props/c16.go","serves_properties":["C16"],"kind_free_text":"destination-exhaustion fault enumerated at every length 0..Size+16 with guard bytes, two buffer shapes"},
+ {"name":"hist","path":"sim/props/c02.go","serves_properties":["C02"],"kind_free_text":"seeded histories of decodes into one persistent target (step by step and through one Decoder), refined against encoding/json as executable reference model"},
+ {"name":"tape / worker / supervisor","path":"sim/tape, sim/core, sim/cmd/worker, sim/cmd/supervisor, check","serves_properties":["C02","C07","C08","C09","C10","C11","C16","C17"],"kind_free_text":"one choice tape per run seeded from VERIF_SEED; one OS process per chunk of runs; crash attribution, confirmation in a fresh process, tape minimisation (in-process, and at process level through a memory-mapped tape mirror for runs that kill the worker), replay files with literal scenarios, known-findings handling, determinism self-test, evidence"},
 ]
 import sys
 extra = {}
